@@ -139,12 +139,21 @@ func (r *Recorder) Take() []Call {
 // annotate is false the rules are not attached as annotations (used when
 // they are supplied through a service config instead).
 func World(rs RuleSet, annotate bool) *dyn.World {
-	var svcs []*descriptorpb.ServiceDescriptorProto
+	rules := make([]*annotations.HttpRule, len(rs))
 	for i, mr := range rs {
-		ms := dyn.MethodSpec{Name: fmt.Sprintf("Mth%d", i), In: ".rt.Req", Out: ".rt.Req"}
 		if annotate {
-			ms.Rule = mr.HTTPRule()
+			rules[i] = mr.HTTPRule()
 		}
+	}
+	return WorldRules(rules)
+}
+
+// WorldRules compiles one single-method service per rule (nil = no
+// annotation).
+func WorldRules(rules []*annotations.HttpRule) *dyn.World {
+	var svcs []*descriptorpb.ServiceDescriptorProto
+	for i, r := range rules {
+		ms := dyn.MethodSpec{Name: fmt.Sprintf("Mth%d", i), In: ".rt.Req", Out: ".rt.Req", Rule: r}
 		svcs = append(svcs, dyn.Svc(fmt.Sprintf("Svc%d", i), ms))
 	}
 	w, err := dyn.NewWorld(dyn.File("rt.proto", Pkg, msgs, enums, svcs))
@@ -356,4 +365,46 @@ func PathForms(p string) []string {
 		forms = append(forms, q)
 	}
 	return forms
+}
+
+func verbsOverlap(a, b string) bool {
+	return a == "*" || b == "*" || strings.EqualFold(a, b)
+}
+
+// ConflictFree drops every method that collides with an earlier one on the
+// same trie position and overlapping verb, and methods whose own bindings
+// overlap each other.
+func ConflictFree(rs RuleSet) RuleSet {
+	type pos struct{ key, verb string }
+	var seen []pos
+	var out RuleSet
+	for _, mr := range rs {
+		ok := true
+		var mine []pos
+		for _, b := range mr.Bindings {
+			tm, err := ref.ParseTemplate(b.Tmpl)
+			if err != nil {
+				ok = false
+				break
+			}
+			p := pos{tm.PositionKey(), b.Verb}
+			for _, s := range seen {
+				if s.key == p.key && verbsOverlap(s.verb, p.verb) {
+					ok = false
+				}
+			}
+			for _, q := range mine {
+				if q.key == p.key && verbsOverlap(q.verb, p.verb) {
+					ok = false
+				}
+			}
+			mine = append(mine, p)
+		}
+		if !ok {
+			continue
+		}
+		seen = append(seen, mine...)
+		out = append(out, mr)
+	}
+	return out
 }
